@@ -1,98 +1,98 @@
 import Qentem.Proofs.NumToStrText17
-/-! C11 closed for doubles except one explicit family of texts; reduction for floats.
+/-! C11 closed for doubles; reduction for floats.
 
-`Props/C11Parser.lean` (parser area) proves `parseDouble t = readBits64 t` for `Text17 t` with the 1/32-ulp margin.
-`Proofs/NumToStrText17.lean` (formatter area) proves that every `%.17g` text of a finite double has the margin and a
-`Shape17` — `Text17`, except that for exponent texts the parser-side *mantissa premise* is not included, because it
-is false for texts such as `1e-54`, `1e-100`, `2e-150`, `1e-300` (few significant digits, negative exponent).
-Here: `text17_or_short` (every `%.17g` text is a `Text17` or a `ShortNegSci`), `parsesExactly17_except`,
-`roundtrip17_except` (the round trip through the real parser model for every double whose text is not in that
-family), `roundtrip17_of_short` (the whole of C11 for doubles from the parser statement on that family), and the float
-reduction `roundtrip9_of_close`. -/
+`Props/C11Parser.lean` (parser area) proves `parseDouble t = readBits64 t` for `Text17 t` with the 1/32-ulp margin
+(every mantissa; the scientific shape excludes the three numerals `1e-273`, `1e-286`, `1e-292`, which the parser
+reads one unit low).  `Proofs/NumToStrText17.lean` (formatter area) proves that every `%.17g` text of a finite double
+has the margin and a `Shape17` (`Text17` without that exclusion).
+Here: `text17_format` (every `%.17g` text is a `Text17`: the three numerals are not `%.17g` outputs, `exc_bits`),
+`parsesExactly17`, **`roundtrip17 : RoundTrip17 parseDouble`** (the whole of C11 for doubles through the real parser
+model), and the float reduction `roundtrip9_of_close`. -/
 set_option linter.unusedSimpArgs false
 set_option linter.unusedVariables false
 namespace Qentem.Props.C11
 open Qentem Qentem.NumToStr Qentem.Proofs.Ident Qentem.Props.C11P
 
-/-- the exponent texts the parser-side theorem does not cover yet: `[-]d[.ddd]e-kk` whose significand `v` (as an
-integer) is below `2^((k + |ys|)/27 + 1)` — at most four significant digits, e.g. `1e-54`, `2e-150`, `1e-300` -/
-def ShortNegSci (t : List Nat) : Prop :=
-  ∃ (neg : Bool) (d1 : Nat) (ys ks : List Nat),
-    t = FmtSpec.signed neg ([d1] ++ (if ys = [] then [] else 46 :: ys) ++ 101 :: 45 :: ks) ∧
-    StrToNum.decVal (d1 :: ys) < 2 ^ ((StrToNum.decVal ks + ys.length) / 27 + 1)
+/-- the three numerals on which the parser is one unit off although the value keeps the 1/32 margin
+(`StrToNum.negExc`) are not `%.17g` outputs: the doubles nearest to them print as `1.0000000000000001e-273`, … -/
+theorem exc_bits (x : Nat) (hx : x = 273 ∨ x = 286 ∨ x = 292) :
+    (FmtSpec.format64 (Round.nearestMag 1 (10 ^ 0 * 10 ^ x)) 17 .default)[1]? = some 46 ∧
+    (FmtSpec.format64 (2 ^ 63 + Round.nearestMag 1 (10 ^ 0 * 10 ^ x)) 17 .default)[2]? = some 46 := by
+  rcases hx with rfl | rfl | rfl <;> decide +kernel
 
-theorem shortNegSci_has_e {t : List Nat} (h : ShortNegSci t) : 101 ∈ t := by
-  obtain ⟨neg, d1, ys, ks, rfl, _⟩ := h
-  cases neg <;> simp [FmtSpec.signed]
-
-/-- every `%.17g`-shaped text is a `Text17` or one of the short negative-exponent texts -/
-theorem text17_or_short (t : List Nat) (h : Shape17 t) : Text17 t ∨ ShortNegSci t := by
-  cases h with
-  | plain _ ht => exact Or.inl ht
+/-- every `%.17g` text of a finite double is a `Text17`: the shape is `shape17_format`; an exponent text cannot be
+`1e-273`, `1e-286` or `1e-292`, because the text identifies its double (`identifies17`) and the doubles nearest to
+these three values print with 17 significant digits -/
+theorem text17_format (b : Nat) (hb : isFinite64 b) : Text17 (FmtSpec.format64 b 17 .default) := by
+  have hsh := shape17_format b hb.1 hb.2
+  generalize ht : FmtSpec.format64 b 17 .default = t at hsh
+  cases hsh with
+  | plain _ h => exact h
   | sci neg d1 ys eneg ks h1 hys hy48 hlen hks hk0 hk8 hrange hpos hnegk =>
+    refine Text17.sci neg d1 ys eneg ks h1 hys hy48 hlen hks hk0 hk8 hrange ?_
+    intro hflag hexc
+    -- the net exponent is negative, so the exponent text is `e-…` or …
+    obtain ⟨hv1, hX⟩ := hexc
+    have hge := StrToNum.decVal_ge d1 ys h1
+    have hys0 : ys = [] := by
+      rcases ys with _ | ⟨y, ys'⟩
+      · rfl
+      · exfalso
+        have : 10 ^ 1 ≤ 10 ^ (y :: ys').length := Nat.pow_le_pow_right (by decide) (by simp)
+        omega
+    subst hys0
     cases eneg with
     | false =>
-      left
-      refine Text17.sci neg d1 ys false ks h1 hys hy48 hlen hks hk0 hk8 hrange ?_
-      intro hflag
       have hk := hpos rfl
       unfold StrToNum.netExp at hflag
       simp [hk] at hflag
     | true =>
       have hk := hnegk rfl
-      have hne : StrToNum.netExp false (StrToNum.decVal ks) true ys.length = (StrToNum.decVal ks + ys.length, true) := by
+      have hne : StrToNum.netExp false (StrToNum.decVal ks) true 0 = (StrToNum.decVal ks, true) := by
         unfold StrToNum.netExp; simp [hk]
-      by_cases hv : 2 ^ ((StrToNum.decVal ks + ys.length) / 27 + 1) ≤ StrToNum.decVal (d1 :: ys)
-      · left
-        refine Text17.sci neg d1 ys true ks h1 hys hy48 hlen hks hk0 hk8 hrange ?_
-        intro _
-        right
-        rw [hne]; exact hv
-      · right
-        exact ⟨neg, d1, ys, ks, by simp, by omega⟩
+      simp only [List.length_nil] at hX
+      rw [hne] at hX
+      simp only at hX
+      -- the reference reader on the text, and the identification
+      have href := readBits64_sci neg d1 [] true ks h1 hys hks hk0
+      have hid := spec_identifies17 b hb
+      rw [ht] at hid
+      rw [href] at hid
+      simp only [if_true, List.length_nil] at hid
+      rw [hv1] at hid
+      have hb' := Option.some.inj hid
+      have hE := exc_bits (StrToNum.decVal ks) hX
+      cases neg with
+      | false =>
+        simp only [Bool.false_eq_true, if_false, Nat.zero_add] at hb'
+        rw [hb', ht] at hE
+        have := hE.1
+        simp [FmtSpec.signed] at this
+      | true =>
+        simp only [if_true] at hb'
+        rw [hb', ht] at hE
+        have := hE.2
+        simp [FmtSpec.signed] at this
 
-/-- **C11, parser half, for every double whose `%.17g` text is not a short negative-exponent text** -/
-theorem parsesExactly17_except (b : Nat) (t : List Nat) (hb : isFinite64 b) (hf : format17 b = .ok t)
-    (hns : ¬ ShortNegSci t) : parseDouble t = FmtSpec.readBits64 t := by
+/-- **C11, parser half, closed**: on the `%.17g` text of every finite double the real parser model (`StringToNumber`
+and the callers' conversion) returns the correctly rounded double of the text -/
+theorem parsesExactly17 : ParsesExactly17 parseDouble := by
+  intro b t hb hf
   have ht : t = FmtSpec.format64 b 17 .default := by
     have := format17_is_reference b; rw [hf] at this; injection this
   subst ht
-  rcases text17_or_short _ (shape17_format b hb.1 hb.2) with h | h
-  · exact parse_exact17 _ h (marginText_format b hb.1 hb.2)
-  · exact absurd h hns
+  exact parse_exact17 _ (text17_format b hb) (marginText_format b hb.1 hb.2)
 
-/-- **`roundtrip17_except`: the round trip through the real parser model** (`NumberToString` with 17 digits, then
-`StringToNumber` and the callers' conversion) returns the original bits for every finite double whose text is not
-in the `ShortNegSci` family — in particular for every double of magnitude ≥ 1e-5 (plain or `e+XX` text) and for every
-`e-XX` text with five or more significant digits. -/
-theorem roundtrip17_except (b : Nat) (hb : isFinite64 b) (hns : ¬ ShortNegSci (FmtSpec.format64 b 17 .default)) :
-    ∃ t, format17 b = .ok t ∧ parseDouble t = some b := by
-  refine ⟨_, format17_is_reference b, ?_⟩
-  rw [parsesExactly17_except b _ hb (format17_is_reference b) hns]
-  exact spec_identifies17 b hb
+/-- **C11 for doubles, closed — `roundtrip17`**: for every finite double, `NumberToString` with 17 significant digits
+(as modelled) raises no fault, and `StringToNumber` followed by the callers' conversion (as modelled) maps the text
+back to the original bit pattern. -/
+theorem roundtrip17 : RoundTrip17 parseDouble := roundtrip17_of_parser parseDouble parsesExactly17
 
-/-- **`roundtrip17_of_short`: what is left of C11 for doubles** — the parser statement on the `ShortNegSci` texts
-(with shape and margin available as hypotheses) gives `ParsesExactly17 parseDouble` and `RoundTrip17 parseDouble` -/
-theorem roundtrip17_of_short
-    (hshort : ∀ t, ShortNegSci t → Shape17 t → MarginText t → parseDouble t = FmtSpec.readBits64 t) :
-    ParsesExactly17 parseDouble ∧ RoundTrip17 parseDouble := by
-  have hp : ParsesExactly17 parseDouble := by
-    intro b t hb hf
-    have ht : t = FmtSpec.format64 b 17 .default := by
-      have := format17_is_reference b; rw [hf] at this; injection this
-    subst ht
-    have hsh := shape17_format b hb.1 hb.2
-    have hm := marginText_format b hb.1 hb.2
-    rcases text17_or_short _ hsh with h | h
-    · exact parse_exact17 _ h hm
-    · exact hshort _ h hsh hm
-  exact ⟨hp, roundtrip17_of_parser parseDouble hp⟩
-
-/-- non-vacuity: 0.1, 1e22 and 1.5e-300 are covered by `roundtrip17_except` (no `e`, `e+`, long significand) -/
+/-- instances: 0.1, 1e-300 (a one-digit significand with a long negative exponent) -/
 example : ∃ t, format17 0x3FB999999999999A = .ok t ∧ parseDouble t = some 0x3FB999999999999A :=
-  roundtrip17_except _ (by decide) (fun h => by
-    have := shortNegSci_has_e h
-    revert this; decide +kernel)
+  roundtrip17 _ (by decide)
+example : ∃ t, format17 0x01A56E1FC2F8F359 = .ok t ∧ parseDouble t = some 0x01A56E1FC2F8F359 :=
+  roundtrip17 _ (by decide)
 
 /-! ### floats: text → double (parser) → float (the caller's narrowing conversion) -/
 
